@@ -1006,25 +1006,8 @@ def rule_L4(ctx, R):
                 res.bad(Violation("L4", f["path"], "unit", "OwnedLockCollection::get_ptrs does not push exactly itself: its members "
                                   "would be ordered individually by an enclosing sorting collection although they are also locked "
                                   "in listing order", *_floc(f)))
-    srcs = {}
-    for a, name, f in rawlock_impl_fns(ctx, {P}):
-        if name not in ("raw_write", "raw_read"):
-            continue
-        paths, err, I = ctx.paths(f)
-        for p in paths or []:
-            prims = {e["result"]: e for e in p.ev("PRIM")}
-            for e in p.ev("PRIM"):
-                if e.get("role") in ("ordered_write", "ordered_read"):
-                    a0 = e["argv"][0]
-                    if a0[0] == "op" and a0[1] in prims:
-                        srcs[name] = "%s(%s)" % (prims[a0[1]].get("role"), vid(prims[a0[1]]["argv"][0]))
-                    else:
-                        srcs[name] = vid(a0)
-    if len(srcs) == 2 and len(set(srcs.values())) == 1 and next(iter(srcs.values())).startswith("get_locks_unsorted("):
-        res.ok("raw_write/raw_read enumerate by %s" % next(iter(srcs.values())))
-    else:
-        res.bad(Violation("L4", P, "enumeration", "blocking ops of OwnedLockCollection enumerate members differently: %s" % srcs))
-    res.need(2, "owned-collection facts")
+    # (that both blocking ops walk the members in one order is decided on the data model: rules_sem.rule_E2 `one-order`)
+    res.need(1, "owned-collection facts")
     return res
 
 
